@@ -528,6 +528,7 @@ class IENAD(IENA):
         """
 
         super(IENAD, self).unpack(buf)
+        self.parameters = []
 
         # According to the IENA spec,the N2 field contains the numner of data words
         dataword_count = self.keystatus & 0x7
